@@ -10,6 +10,29 @@ PANICS = ('std::option::Option::<T>::unwrap', 'std::option::Option::<T>::expect'
           'core::panicking::panic_explicit', 'core::option::unwrap_failed', 'core::result::unwrap_failed', 'core::option::expect_failed')
 
 
+# std functions that panic on a bad position / range argument (byte offsets inside a multi-byte character, indices beyond the length):
+# none is used by the visualisation today; a new one reachable from as_graphviz is a new way for it to panic
+POSITIONAL = ('std::string::String::truncate', 'std::string::String::insert', 'std::string::String::insert_str', 'std::string::String::remove',
+              'std::string::String::drain', 'std::string::String::replace_range', 'std::string::String::split_off',
+              'core::str::<impl str>::split_at', 'core::str::<impl str>::split_at_mut',
+              'std::vec::Vec::<T, A>::remove', 'std::vec::Vec::<T, A>::insert', 'std::vec::Vec::<T, A>::swap_remove', 'std::vec::Vec::<T, A>::split_off',
+              'std::vec::Vec::<T, A>::drain', 'core::slice::<impl [T]>::split_at', 'core::slice::<impl [T]>::split_at_mut', 'core::slice::<impl [T]>::copy_from_slice',
+              'core::slice::<impl [T]>::swap', 'core::slice::<impl [T]>::chunks', 'core::slice::<impl [T]>::windows', 'std::iter::Iterator::step_by',
+              'core::char::from_digit', 'std::char::from_digit', 'core::slice::<impl [T]>::rotate_left', 'core::slice::<impl [T]>::rotate_right')
+
+
+def _positional_hazard(t):
+    c = t.get('callee') or ''
+    if c in POSITIONAL or c.split('::<')[0] in POSITIONAL:
+        return c.split('::')[-1]
+    last = c.split('::')[-1]
+    sty = (t.get('self_ty') or '') + ' ' + ' '.join(t.get('arg_tys') or [])[:200]
+    # slicing a str / String by a byte range: <str as Index<Range..>>::index
+    if last in ('index', 'index_mut') and (t.get('arg_tys') or [''])[0].replace('&', '').replace('mut ', '').strip() in ('str', 'std::string::String') and 'Range' in sty:
+        return 'str[range]'
+    return None
+
+
 def r_viz(ctx):
     F = ctx.F
     for tag, adt in DIAGRAMS:
@@ -25,6 +48,21 @@ def r_viz(ctx):
                 c = t.get('callee') or ''
                 if c in PANICS or c.startswith('core::panicking::'):
                     sites.append((b, bb, t))
+        for b in reach:
+            for (bb, t) in b.calls():
+                hz = _positional_hazard(t)
+                if hz:
+                    ctx.bad('R20.a', '%s/panic-site/%s@%s' % (tag, hz, short(b)), b, b.loc(bb),
+                            'a call that panics on a bad position (%s: byte offset inside a character / index beyond the length) is reachable from as_graphviz; user states print through Debug, so no bound on the text is known' % hz)
+            for bbk in b.live_blocks():
+                t = b.term(bbk)
+                msg = (t.get('msg') or '') if t['k'] == 'assert' else ''
+                if msg.count('const ') >= 2 and msg.count('move ') + msg.count('copy ') == 0:
+                    continue        # both operands are constants: rustc rejects an overflowing constant expression at compile time
+                if msg.startswith(('Overflow(Sub', 'Overflow(Neg', 'DivisionByZero', 'RemainderByZero', 'Overflow(Div', 'Overflow(Rem')):
+                    ctx.bad('R20.a', '%s/panic-site/%s@%s' % (tag, msg.split('(')[0] + '(' + msg.split('(')[1].split(',')[0] if '(' in msg else msg, short(b)), b, b.loc(bbk),
+                            'an arithmetic panic site (%s) is reachable from as_graphviz: totality of the visualisation is no longer covered by the discharged inventory' % msg[:60])
+        ctx.ok('R20.a', tag + '/positional-and-arithmetic-panic-sites', g, g.loc(0), 'no position-taking std call (String::truncate, str[range], Vec::remove ..) and no subtraction / division assertion is reachable from as_graphviz')
         expected = []
         for (b, bb, t) in sites:
             arg = b.origin.operand(t['args'][0], b.term_point(bb)) if t['args'] else None
